@@ -3,6 +3,7 @@ package main
 import (
 	"fmt"
 	"go/ast"
+	"go/token"
 	"go/types"
 	"sort"
 	"strings"
@@ -409,4 +410,92 @@ func ruleR10d(c *Ctx) {
 			fmt.Sprintf("the plural bodies are fingerprinted with different brace settings %v: the id no longer is the fingerprint of the placeholder string", sortedKeys(args)))
 		return true
 	})
+}
+
+// R10f: two placeholders are the same placeholder only if their complete printed text is the same
+// (directives included). R10g: the id computation has no input but the message.
+func ruleR10f(c *Ctx) {
+	p := c.pkg("soymsg")
+	fd := c.mustFunc("soymsg", "setPlaceholderNames")
+	if p == nil || fd == nil {
+		return
+	}
+	info := p.TypesInfo
+	astPkg := c.pkg("ast")
+	nodeIface := astPkg.Types.Scope().Lookup("Node").Type().Underlying().(*types.Interface)
+	isNodeString := func(e ast.Expr) bool {
+		e = resolveLocalInit(e, fd.Body, info)
+		call, ok := ast.Unparen(e).(*ast.CallExpr)
+		if !ok || len(call.Args) != 0 {
+			return false
+		}
+		se, ok := call.Fun.(*ast.SelectorExpr)
+		if !ok || se.Sel.Name != "String" {
+			return false
+		}
+		tv, ok := info.Types[se.X]
+		if !ok {
+			return false
+		}
+		_, isIface := tv.Type.Underlying().(*types.Interface)
+		return isIface && types.Implements(tv.Type, nodeIface)
+	}
+	n := 0
+	// the equivalence test: an == inside a loop over representative nodes whose true branch records an equivalence
+	ast.Inspect(fd.Body, func(x ast.Node) bool {
+		ifs, ok := x.(*ast.IfStmt)
+		if !ok {
+			return true
+		}
+		records := false
+		ast.Inspect(ifs.Body, func(y ast.Node) bool {
+			if as, ok := y.(*ast.AssignStmt); ok && len(as.Lhs) == 1 {
+				if ix, ok := as.Lhs[0].(*ast.IndexExpr); ok {
+					if tv, ok := info.Types[ix.X]; ok {
+						if m, ok := tv.Type.Underlying().(*types.Map); ok && types.Implements(m.Key(), nodeIface) {
+							records = true
+						}
+					}
+				}
+			}
+			return true
+		})
+		if !records {
+			return true
+		}
+		n++
+		be, ok := ast.Unparen(ifs.Cond).(*ast.BinaryExpr)
+		c.check(ok && be.Op == token.EQL && isNodeString(be.X) && isNodeString(be.Y), "R10f", "soymsg.setPlaceholderNames placeholder-equivalence", ifs.Pos(),
+			"two placeholders are merged only when their complete printed source (expression and directives) is equal",
+			"placeholders are merged on "+exprKey(ifs.Cond)+", which is not equality of the complete printed text of both nodes: placeholders that differ (for instance only in their print directives) share one name, and a translated message renders the first one for both")
+		return true
+	})
+	c.floor("R10f", "placeholder equivalence tests", 1, n)
+}
+
+// R10g: the id and placeholder computations have no input but the message node.
+func ruleR10g(c *Ctx) {
+	p := c.pkg("soymsg")
+	if p == nil {
+		return
+	}
+	info := p.TypesInfo
+	for _, name := range []string{"SetPlaceholdersAndID", "calcID", "setPlaceholderNames"} {
+		f := c.mustFunc("soymsg", name)
+		if f == nil {
+			continue
+		}
+		np := 0
+		okType := false
+		for _, fl := range f.Type.Params.List {
+			np += len(fl.Names)
+			if tv, ok := info.Types[fl.Type]; ok {
+				if _, tn, ok := relPkgOfType(tv.Type); ok && tn == "MsgNode" {
+					okType = true
+				}
+			}
+		}
+		c.check(np == 1 && okType, "R10g", "soymsg."+name+" inputs", f.Pos(), "the message node is the only input",
+			"the id / placeholder computation takes "+fmt.Sprint(np)+" inputs: with anything but the message as input (a cache, a registry, a counter) the id depends on what was processed before")
+	}
 }
